@@ -497,7 +497,7 @@ func discTableProp(c *pbt.C) {
 	invalidAddrs := map[string]bool{}
 	ruleDiffers := ""
 	for _, r := range hostile {
-		n := []int{1, 3, 8, 14, 0}[c.Pick(r.name+".entries", 5)]
+		n := []int{1, 3, 8, 14, 0, 16, 17, 22}[c.Pick(r.name+".entries", 8)] // 16 entries complete a findnode
 		for j := 0; j < n; j++ {
 			kind := nbrKinds[c.Pick(fmt.Sprintf("%s.e%d", r.name, j%6), len(nbrKinds))]
 			c.Class("entry/" + kind)
